@@ -137,6 +137,9 @@ type emitCase struct {
 	Kind string    `json:"kind"` // request | response | exception | parse-error
 	Req  spec.Req  `json:"req,omitempty"`
 	Resp spec.Resp `json:"resp,omitempty"`
+	// LenDelta: the byte-length field of the response struct (CoilsByteLength / RegisterByteLen ...) is set to
+	// len(Data)+LenDelta: a hand-built, inconsistent struct. Whatever frame is emitted for it must still end with its own CRC.
+	LenDelta int `json:"len_delta,omitempty"`
 }
 
 func genResp(t *rapid.T, fc uint8) spec.Resp {
@@ -162,8 +165,26 @@ func genResp(t *rapid.T, fc uint8) spec.Resp {
 	return r
 }
 
-// libResponseRTU builds the library's RTU response struct the way a parser or a server handler would.
-func libResponseRTU(r spec.Resp) packet.Response {
+// libResponseRTU builds the library's RTU response struct the way a parser or a server handler would
+// (lenDelta != 0: with an inconsistent byte-length field).
+func libResponseRTU(r spec.Resp, lenDelta int) packet.Response {
+	bl := func() uint8 { return uint8(len(r.Data) + lenDelta) }
+	switch r.FC {
+	case 1:
+		return &packet.ReadCoilsResponseRTU{ReadCoilsResponse: packet.ReadCoilsResponse{UnitID: r.Unit, CoilsByteLength: bl(), Data: r.Data}}
+	case 2:
+		return &packet.ReadDiscreteInputsResponseRTU{ReadDiscreteInputsResponse: packet.ReadDiscreteInputsResponse{UnitID: r.Unit, InputsByteLength: bl(), Data: r.Data}}
+	case 3:
+		return &packet.ReadHoldingRegistersResponseRTU{ReadHoldingRegistersResponse: packet.ReadHoldingRegistersResponse{UnitID: r.Unit, RegisterByteLen: bl(), Data: r.Data}}
+	case 4:
+		return &packet.ReadInputRegistersResponseRTU{ReadInputRegistersResponse: packet.ReadInputRegistersResponse{UnitID: r.Unit, RegisterByteLen: bl(), Data: r.Data}}
+	case 23:
+		return &packet.ReadWriteMultipleRegistersResponseRTU{ReadWriteMultipleRegistersResponse: packet.ReadWriteMultipleRegistersResponse{UnitID: r.Unit, RegisterByteLen: bl(), Data: r.Data}}
+	}
+	return libResponseRTUConsistent(r)
+}
+
+func libResponseRTUConsistent(r spec.Resp) packet.Response {
 	switch r.FC {
 	case 1:
 		return &packet.ReadCoilsResponseRTU{ReadCoilsResponse: packet.ReadCoilsResponse{UnitID: r.Unit, CoilsByteLength: uint8(len(r.Data)), Data: r.Data}}
@@ -198,7 +219,7 @@ func emitted(c emitCase) ([]byte, string) {
 		}
 		return q.Bytes(), cat.GoType(q)
 	case "response":
-		r := libResponseRTU(c.Resp)
+		r := libResponseRTU(c.Resp, c.LenDelta)
 		return r.Bytes(), cat.GoType(r)
 	case "exception":
 		e := packet.ErrorResponseRTU{UnitID: c.Resp.Unit, Function: c.Resp.FC, Code: c.Resp.Code}
@@ -219,7 +240,14 @@ func genEmit(t *rapid.T) emitCase {
 	case "request":
 		return emitCase{Kind: kind, Req: gen.LegalReq(t, fc, false)}
 	case "response":
-		return emitCase{Kind: kind, Resp: genResp(t, fc)}
+		c := emitCase{Kind: kind, Resp: genResp(t, fc)}
+		if rapid.IntRange(0, 3).Draw(t, "inconsistent") == 0 && len(c.Resp.Data) > 0 {
+			c.LenDelta = rapid.SampledFrom([]int{-2, -1, 1, 2, 3}).Draw(t, "len_delta")
+			if len(c.Resp.Data)+c.LenDelta < 0 || len(c.Resp.Data)+c.LenDelta > 250 {
+				c.LenDelta = 0
+			}
+		}
+		return c
 	}
 	// the Function field of the exception structs is a plain uint8: any value can be put into it, the trailer must be the CRC of what is emitted
 	return emitCase{Kind: kind, Resp: spec.Resp{FC: rapid.Uint8().Draw(t, "efc"), Unit: rapid.Uint8().Draw(t, "unit"), Code: rapid.Uint8().Draw(t, "code"), IsException: true}}
